@@ -193,10 +193,8 @@ def _history(args):
                 r = c.eval(src)
             except JSError as e:
                 r, err = None, type(e).__name__
-                if err == "TimeLimitError" and op in ("define-regex-fn", "call-regex-fn") and _t2.time() - t_eval >= 0.14:
-                    if op == "define-regex-fn":
-                        m["rx"] = True      # (the declaration is hoisted: rx exists even though its first call ran out of time)
-                    continue        # really out of time (overloaded machine): inconclusive for this step
+                if err == "TimeLimitError" and op not in ("loop-forever", "recurse-forever", "try-timeout-inside") and _t2.time() - t_eval >= 0.14:
+                    return None     # a terminating step really ran out of its 0.15 s (overloaded machine): the history is inconclusive
             except BaseException as e:  # noqa
                 return (hist, step, f"host exception {type(e).__name__}: {str(e)[:60]}")
             if op == "define":
